@@ -14,8 +14,9 @@ MIN_APPLIED = 0.6
 
 
 class M:
-    def __init__(self, prop, name, file, old, new, expect, count=1):
-        self.prop, self.name, self.file, self.old, self.new, self.expect, self.count = prop, name, file, old, new, expect, count
+    def __init__(self, prop, name, file, old, new, expect, extra=None):
+        # extra: further (file, old, new) edits applied together with the first one
+        self.prop, self.name, self.file, self.old, self.new, self.expect, self.extra = prop, name, file, old, new, expect, list(extra or [])
 
 
 def catalogue(prop):
@@ -32,17 +33,19 @@ def catalogue(prop):
 
 
 def _run_one(args):
-    prop, root, m_name, file, old, new, expect, baseline_keys = args
+    prop, root, m_name, file, old, new, expect, baseline_keys, extra = args
     from .driver import run_property
 
-    path = os.path.join(root, file)
-    with open(path, encoding="utf8") as f:
-        src = f.read()
-    if src.count(old) < 1:
-        return (m_name, "skip", "anchor text not found")
-    mutated = src.replace(old, new, 1)
+    overrides = {}
+    for fl, o, nw in [(file, old, new)] + list(extra):
+        if fl not in overrides:
+            with open(os.path.join(root, fl), encoding="utf8") as f:
+                overrides[fl] = f.read()
+        if overrides[fl].count(o) < 1:
+            return (m_name, "skip", "anchor text not found")
+        overrides[fl] = overrides[fl].replace(o, nw, 1)
     try:
-        R, _ = run_property(prop, "quick", root, quiet=True, overrides={file: mutated})
+        R, _ = run_property(prop, "quick", root, quiet=True, overrides=overrides)
         keys = {o.key for o in R.violations()}
         try:
             R.check_floors()
@@ -69,7 +72,7 @@ def run_selftest(prop, root, jobs=None):
     R, _ = run_property(prop, "quick", root, quiet=True)
     baseline = {o.key for o in R.violations()}
     jobs = jobs or min(16, os.cpu_count() or 4)
-    args = [(prop, root, m.name, m.file, m.old, m.new, m.expect, baseline) for m in cat]
+    args = [(prop, root, m.name, m.file, m.old, m.new, m.expect, baseline, m.extra) for m in cat]
     with ProcessPoolExecutor(max_workers=jobs) as ex:
         results = list(ex.map(_run_one, args, chunksize=1))
     res = {"ok": 0, "miss": 0, "noise": 0, "skip": 0}
